@@ -160,6 +160,79 @@ theorem dist_spec (F : Facts) (hk : F.keepRegistry = true) (a : Acct) :
       have e := ih3 cid
       simp only [rowsSum]; omega
 
+/-- Σ amount of the funding rows of account `a` -/
+def acctSum (a : Acct) : List Row → Nat
+  | [] => 0
+  | r :: rest => (if r.acct = a then r.amt else 0) + acctSum a rest
+
+/-- what leaves the funding rows of the account is exactly the usage that was attributed -/
+theorem dist_attributes (F : Facts) (a : Acct) :
+    ∀ (rows : List Row) (u : Usage) (ctr : Cid → Contract),
+      (dist F a rows u ctr).left.total6 + acctSum a rows
+        = u.total6 + acctSum a (dist F a rows u ctr).rows := by
+  intro rows
+  induction rows with
+  | nil => intro u ctr; simp [dist, acctSum]
+  | cons r rest ih =>
+    intro u ctr
+    simp only [dist]
+    split
+    · rename_i h
+      obtain ⟨hs1, hs2, _⟩ := distRow_spec u r.amt
+      have e := ih (distRow u r.amt).left (upd ctr r.cid (applyMoved F (ctr r.cid) (r.amt - (distRow u r.amt).rem) (distRow u r.amt).add))
+      split
+      · rename_i h0; simp only [acctSum, h.1, if_true]; omega
+      · simp only [acctSum, h.1, if_true]; omega
+    · rename_i h
+      have e := ih u ctr
+      simp only [acctSum]
+      omega
+
+theorem take_step (x r : Nat) : r - min x r = 0 ∨ x - min x r = 0 := by omega
+
+/-- one row: either the row is exhausted or nothing of the usage is left -/
+theorem rowRes_exhausts (u : Usage) (amt v1 v2 v3 v4 v5 v6 : Nat)
+    (s1 : amt - v1 = 0 ∨ u.sto - v1 = 0) (s2 : amt - v1 - v2 = 0 ∨ u.ing - v2 = 0)
+    (s3 : amt - v1 - v2 - v3 = 0 ∨ u.egr - v3 = 0) (s4 : amt - v1 - v2 - v3 - v4 = 0 ∨ u.rr - v4 = 0)
+    (s5 : amt - v1 - v2 - v3 - v4 - v5 = 0 ∨ u.rw - v5 = 0)
+    (s6 : amt - v1 - v2 - v3 - v4 - v5 - v6 = 0 ∨ u.rpc - v6 = 0) :
+    (rowRes u amt v1 v2 v3 v4 v5 v6).rem = 0 ∨ (rowRes u amt v1 v2 v3 v4 v5 v6).left.total6 = 0 := by
+  simp only [rowRes, Usage.total6]
+  omega
+
+theorem distRow_exhausts (u : Usage) (amt : Nat) :
+    (distRow u amt).rem = 0 ∨ (distRow u amt).left.total6 = 0 := by
+  unfold distRow
+  apply rowRes_exhausts <;> exact take_step _ _
+
+/-- **No loss in the attribution.** If the account's funding rows cover the debit, every hasting of
+the usage is attributed to some funding contract (nothing is left over). -/
+theorem dist_complete (F : Facts) (a : Acct) :
+    ∀ (rows : List Row) (u : Usage) (ctr : Cid → Contract),
+      u.total6 ≤ acctSum a rows → (dist F a rows u ctr).left.total6 = 0 := by
+  intro rows
+  induction rows with
+  | nil => intro u ctr h; simp [acctSum] at h; simp [dist, h]
+  | cons r rest ih =>
+    intro u ctr h
+    simp only [dist]
+    split
+    · rename_i hr
+      obtain ⟨hs1, hs2, _⟩ := distRow_spec u r.amt
+      simp only [acctSum, hr.1, if_true] at h
+      apply ih
+      rcases distRow_exhausts u r.amt with h0 | h0
+      · omega
+      · omega
+    · rename_i hr
+      apply ih
+      simp only [acctSum] at h
+      by_cases ha : r.acct = a
+      · have : r.amt = 0 := by
+          apply Decidable.byContradiction; intro hne; exact hr ⟨ha, hne⟩
+        simp [ha, this] at h; exact h
+      · simp [ha] at h; exact h
+
 /-! ## the invariant -/
 
 /-- conservation for every contract, and the unspent account funding of a contract is the sum of
